@@ -152,10 +152,17 @@ def binop(op, a, b, tags):
             return Err(DIV0)
         r = x / y
     elif op == '^':
-        if x == 0 and y <= 0:
-            raise Skip('pow-domain')      # C16 owns the domain rules of ^
+        if x == 0 and y == 0:
+            raise Skip('pow-domain')      # 0^0: not fixed by any property
+        if x == 0 and y < 0:
+            tags.add('pow:zero-to-negative')
+            return Err(DIV0)
         if x < 0 and y != int(y):
-            raise Skip('pow-domain')
+            # no real power (C16: "arguments outside a function's domain
+            # yield an Excel error value"); without it -x^0.5 could not be
+            # told from -(x^0.5)
+            tags.add('pow:negative-base-fractional-exponent')
+            return Err(NUM)
         try:
             r = math.pow(x, y)
         except (OverflowError, ValueError):
